@@ -162,6 +162,27 @@ def proof_layer(mod):
     return status
 
 
+def coqchk(pid):
+    """Thorough tier: the independent checker re-checks Props/Cxx.vo and everything it depends on and lists the
+    axioms the compiled files rely on (none are expected: stdlib + Lia only)."""
+    cmd = ["timeout", "2400", "coqchk", "-o", "-silent", "-Q", ".", "TT", "TT.Props.%s" % pid]
+    t0 = time.time()
+    p = subprocess.run(cmd, cwd=COQ, capture_output=True, text=True)
+    out = p.stdout + p.stderr
+    m = re.search(r"\* Axioms:(.*?)\n\s*\n\* Constants/Inductives relying on type-in-type:(.*?)\n\s*\n"
+                  r"\* Constants/Inductives relying on unsafe \(co\)fixpoints:(.*?)\n\s*\n"
+                  r"\* Inductives whose positivity is assumed:(.*?)\n", out + "\n\n", flags=re.S)
+    res = {"cmd": " ".join(cmd), "wall_s": round(time.time() - t0, 1), "tail": out[-1500:]}
+    if p.returncode != 0 or not m:
+        res.update(ok=False, axioms=None)
+        return res
+    ax, tit, unsafe, pos = [" ".join(x.split()) for x in m.groups()]
+    res.update(axioms=ax, type_in_type=tit, unsafe_fixpoints=unsafe, positivity_assumed=pos)
+    # kernel checks must not be switched off anywhere below the property file
+    res["ok"] = tit == "<none>" and unsafe == "<none>" and pos == "<none>"
+    return res
+
+
 # --------------------------------------------------------------------------
 # running the implementation
 # --------------------------------------------------------------------------
@@ -360,9 +381,14 @@ def run_check(pid, tier, seed):
         try:
             tables_hash = regenerate_tables()
             proof = proof_layer(mod)
+            if tier == "thorough" and proof["ok"]:
+                proof["coqchk"] = coqchk(pid)
         finally:
             lock.un()
         proof_ok = proof["ok"] and not proof["forbidden"] and proof.get("print_assumptions_ok", False)
+        if "coqchk" in proof and not proof["coqchk"]["ok"]:
+            proof_ok = False
+            proof["log_tail"] = "coqchk: " + proof["coqchk"]["tail"]
         corr_vo = os.path.join(COQ, mod.CORR.replace(".", "/") + ".vo")
         corr_built = os.path.exists(corr_vo) and (proof["ok"] or make([mod.CORR.replace(".", "/") + ".vo"])[0] == 0)
 
@@ -511,6 +537,11 @@ def run_check(pid, tier, seed):
               "Gen/Tables.v printed from the imported live code (tables hash %s)" % tables_hash]
         for name, a in proof["assumptions"].items():
             tb.append("Print Assumptions %s: %s" % (name, a))
+        if "coqchk" in proof:
+            c = proof["coqchk"]
+            tb.append("coqchk -o TT.Props.%s (independent checker, %ss): axioms %s; type-in-type %s; unsafe fixpoints %s; "
+                      "positivity assumed %s" % (pid, c["wall_s"], c.get("axioms"), c.get("type_in_type"),
+                                                 c.get("unsafe_fixpoints"), c.get("positivity_assumed")))
         tb += list(getattr(mod, "TRUSTED", []))
         cov = {
             "obligations": proof["obligations"], "discharged": proof["discharged"],
